@@ -85,7 +85,7 @@ def extract(repo=REPO, features=None, quiet=False):
     ensure_driver()
     key = tree_hash(repo, extra="features=%s" % (features or ""))
     out = os.path.join(CACHE, "facts-" + key)
-    lock = open(os.path.join(CACHE, "extract.lock"), "w")
+    lock = open(os.path.join(CACHE, "extract-%s.lock" % key), "w")
     fcntl.flock(lock, fcntl.LOCK_EX)
     try:
         if os.path.exists(os.path.join(out, "OK")):
@@ -110,6 +110,10 @@ def extract(repo=REPO, features=None, quiet=False):
     finally:
         fcntl.flock(lock, fcntl.LOCK_UN)
         lock.close()
+        try:
+            os.unlink(os.path.join(CACHE, "extract-%s.lock" % key))
+        except OSError:
+            pass
 
 
 class ExtractionFailed(Exception):
